@@ -351,6 +351,14 @@ def _every_chromosome_visited(ctx):
     r1_pending_group(ctx)
     r2_every_contig_gets_a_buffer(ctx)   # streamed genome-wide results cover every chromosome, also trailing ones without entries
 
+def _genome_order(ctx):
+    """Sorting in genome order (property text): the sort keys of genomic intervals and locations -- clauses of C08-R2 on GenomicIntervalsFull.sorted and
+    GenomicLocationGlobal.sorted."""
+    from .c08 import r2_sort_keys
+    with ctx.only("GenomicIntervalsFull.sorted", "GenomicLocationGlobal.sorted"):
+        r2_sort_keys(ctx)
+
+
 RULES = [
     ("C10-R1", r1_lockstep),
     ("C10-R2", r2_global_taint),
@@ -363,4 +371,5 @@ RULES = [
     ("C10-T1", _through_time),
     ("C10-T2", _small_edits),
     ("C10-R9", _every_chromosome_visited),
+    ("C10-R10", _genome_order),
 ]
